@@ -502,13 +502,19 @@ def run_check(plugin, tier: str, seed: int, replay: str | None = None) -> int:
     oracles = list(getattr(plugin, "ORACLES", []))
     if oracles and sweep_budget > 0:
         per = sweep_budget / len(oracles)
+        # every oracle sees a minimum number of inputs even when many oracles share the budget
+        # (15 oracles x 20 s left ~1.3 s each: an audit found oracles that judged a handful of inputs);
+        # the hard stop keeps a slow oracle from running away
+        min_inputs = int(os.environ.get("VERIF_SWEEP_MIN", "25" if tier == "quick" else "300"))
         for orc in oracles:
             t_end = time.time() + per
+            t_hard = time.time() + max(per * 4, 6.0 if tier == "quick" else 60.0)
             sub = random.Random(rng.random())
             n = 0
             try:
                 for a in orc.gen(sub, tier):
-                    if time.time() > t_end:
+                    now = time.time()
+                    if (now > t_end and n >= min_inputs) or now > t_hard:
                         break
                     n += 1
                     try:
